@@ -6,6 +6,7 @@ import (
 	"crypto/ed25519"
 	"crypto/elliptic"
 	"crypto/rsa"
+	"fmt"
 	"sync"
 
 	cose "github.com/veraison/go-cose"
@@ -145,7 +146,7 @@ func genGoBucket(r *Rng, cfg BucketCfg, protected bool, alg cose.Algorithm, have
 				if r.Chance(2, 3) {
 					add(pick(r, []int64{7, 11}), genGoCountersig(r, sub))
 				} else {
-					k := 1 + r.Intn(2)
+					k := 1 + r.Intn(5)
 					l := make([]*cose.Countersignature, k)
 					for j := range l {
 						l[j] = genGoCountersig(r, sub)
@@ -319,6 +320,17 @@ func realKeySet(r *Rng) []realKey {
 		}
 		for _, a := range []cose.Algorithm{cose.AlgorithmPS256, cose.AlgorithmPS384, cose.AlgorithmPS512} {
 			realKeys = append(realKeys, realKey{a, "RSA-2048", rk, &rk.PublicKey})
+		}
+		// key sizes other than the minimum: a modulus that is not a whole number of bytes, and a larger one
+		for _, sz := range []struct {
+			bits int
+			alg  cose.Algorithm
+		}{{2051, cose.AlgorithmPS256}, {3072, cose.AlgorithmPS384}} {
+			k2, err := rsa.GenerateKey(kr, sz.bits)
+			if err != nil {
+				panic(err)
+			}
+			realKeys = append(realKeys, realKey{sz.alg, fmt.Sprintf("RSA-%d", sz.bits), k2, &k2.PublicKey})
 		}
 	})
 	return realKeys
